@@ -164,8 +164,9 @@ class Extract(object):
                 self.stores.append(Store(t.value.id, idx, self.term(s.value, stack), list(stack), s, kind='accumulate'))
                 return
         if isinstance(s, ast.If) and isinstance(s.test, ast.Compare) and len(s.test.ops) == 1 \
-                and isinstance(s.test.ops[0], ast.Eq) and len(s.body) == 1 and len(s.orelse) == 1:
-            b1, b0 = s.body[0], s.orelse[0]
+                and isinstance(s.test.ops[0], (ast.Eq, ast.NotEq)) and len(s.body) == 1 and len(s.orelse) == 1:
+            # `if i == j: x = 1 else: x = 0` and its mirror image under `!=`
+            b1, b0 = (s.body[0], s.orelse[0]) if isinstance(s.test.ops[0], ast.Eq) else (s.orelse[0], s.body[0])
             if isinstance(b1, ast.Assign) and isinstance(b0, ast.Assign) and U(b1.targets[0]) == U(b0.targets[0]) \
                     and isinstance(b1.targets[0], ast.Subscript):
                 a, b = from_ast(s.test.left, self.ints), from_ast(s.test.comparators[0], self.ints)
@@ -173,6 +174,20 @@ class Extract(object):
                 if a is not None and b is not None and v1 == ('const', Fraction(1)) and v0 == ('const', Fraction(0)):
                     t = b1.targets[0]
                     self.stores.append(Store(t.value.id, from_ast(t.slice, self.ints), ('delta', a, b), list(stack), s))
+                    return
+        if isinstance(s, ast.If) and not s.orelse and isinstance(s.test, ast.Compare) and len(s.test.ops) == 1 and isinstance(s.test.ops[0], (ast.Lt, ast.LtE, ast.Gt, ast.GtE)):
+            # a guard on a loop variable narrows the range over which the guarded stores happen: `for j in range(n): if j < na: ...` stores for j in [0, min(n, na))
+            l_, r_, op_ = s.test.left, s.test.comparators[0], s.test.ops[0]
+            if isinstance(op_, (ast.Gt, ast.GtE)):
+                l_, r_, op_ = r_, l_, (ast.Lt() if isinstance(op_, ast.Gt) else ast.LtE())
+            names_ = [v for v, lo, hi in stack]
+            if isinstance(l_, ast.Name) and l_.id in names_:
+                bound = from_ast(r_, self.ints)
+                if bound is not None and l_.id not in bound.atoms():
+                    if isinstance(op_, ast.LtE):
+                        bound = bound + Poly.const(1)
+                    new_stack = [(v, lo, (Poly.var('min(%s,%s)' % (hi, bound)) if v == l_.id else hi)) for v, lo, hi in stack]
+                    self.block(s.body, new_stack)
                     return
         if isinstance(s, ast.Return):
             if s.value is None:
